@@ -45,6 +45,24 @@ NEEDS = {
     'C18-bB': "noise_cov_channel given and noise not in {0,1}: noise level applied twice",
     'C19-bA': "more than 1000 centres and a data matrix that is not float64: chunked result buffer takes the data dtype",
     'C19-bB': "n_jobs > 1: the searchlight iterator yields one reused RDMs object, pending tasks see a later centre's data",
+    'C04-cA': "ndarray pattern descriptor with unique increasing labels + random folds + no condition resampling + flexible model: folds cut from RDMs whose labels were shuffled in place",
+    'C04-cB': "eval_bootstrap_rdm with boot_noise_ceil=False and a grouped rdm_descriptor: full-data ceiling computed leave-one-RDM-out",
+    'C05-cA': "grouping descriptor with repeated string/float labels and a looked-up value list of >= ~17 entries: np.isin(assume_unique=True) in bool_index",
+    'C05-cB': "bootstrap sample with a repeated draw, grouping by the default 'index': subsample renumbers index, copies land on different sides",
+    'C09-cA': "get_matrices / pattern draw, then reorder or sort_by in place, then another pattern draw: cached square form not refreshed by reorder",
+    'C09-cB': "dual bootstrap_sample with a pattern descriptor that has repeated values: n_cond draws instead of one per group",
+    'C10-cA': "permute_rdms then append: append_descriptor extends lists shared through permute_rdms' shallow dict copy",
+    'C10-cB': "RDMs.subsample with a scalar multi-character string value: iterated character by character",
+    'C11-cA': "merge of >= 2 parts whose dataset-level descriptor is distinct per part and not ascending (odd_even_split on 4,2,3,1): sorted unique values reused as per-part values",
+    'C11-cB': "time_as_channels on a non-C-contiguous measurements array (after subset_time / split_channel ...): flatten(order='K')",
+    'C12-cA': "RDMs.mean(weights=float64 ndarray or descriptor name) with NaNs in the dissimilarities: weights NaN-masked in place",
+    'C12-cB': "permute_rdms / inverse_permute_rdms then append: list descriptors extended in place and shared by the shallow copy",
+    'C16-cA': "pathlib.Path target + existing HDF5 file + overwrite=False: File(..., 'w') replaces the file silently",
+    'C16-cB': "TemporalDataset with a ragged time descriptor saved to HDF5: time_descriptors not converted back from the per-element group",
+    'C18-cA': "condition vector whose first-appearance order contains a 3-cycle (random trial order): get_unique_inverse returns the wrong inverse in calc_rdm's averaging",
+    'C18-cB': "use_exact_signal=True, default use_same_signal=False, n_sim >= 2: signal generated once before the loop",
+    'C19-cA': "threshold < 1 and a centre whose in-mask fraction equals the threshold exactly (border-truncated spheres): '>' instead of '>='",
+    'C19-cB': "> 1000 centres and event labels not first occurring in sorted order: chunked branch encodes labels by first appearance",
 }
 
 
